@@ -288,13 +288,13 @@ impl<'store> Transposable<'store> for ResultTextSelectionSet<'store> {
             // check if we found all text selections
             if !source_found
                 || source_side.is_none()
-                || selectors_per_side.get(source_side.unwrap()).unwrap().len() != self.inner().len()
+                || selectors_per_side.get(source_side.unwrap()).map(|x| x.len()) != Some(self.inner().len())
             {
                 return Err(StamError::TransposeError(
                     format!(
                         "{} out of {} source fragments were covered by the simple transposition {}, not enough to transpose",
                         if let Some(source_side) = source_side {
-                            selectors_per_side.get(source_side).unwrap().len()
+                            selectors_per_side.get(source_side).map(|x| x.len()).unwrap_or(0) //(the side may not exist if it was set via TranspositionSide::ByIndex)
                         } else {
                             0
                         },
@@ -385,7 +385,7 @@ impl<'store> Transposable<'store> for ResultTextSelectionSet<'store> {
             ));
         }
 
-        match selectors_per_side[source_side.expect("source side must exist at this point")].len() {
+        match selectors_per_side.get(source_side.expect("source side must exist at this point")).map(|x| x.len()).unwrap_or(0) {
             0 => 
                 Err(StamError::TransposeError(
                     format!(
